@@ -92,6 +92,7 @@ struct G<'a> {
     nq: usize,
     /// remaining steps of a map_ref chain being emitted (each on top of the previous node)
     pending_chain: usize,
+    pending_idref: u32,
     chain_stage: u8,
     nvars: usize,
     nobs: usize,
@@ -216,7 +217,7 @@ impl<'a> G<'a> {
             6 => BodyExpr::Bind(Box::new(self.body_expr(depth + 1, bind_depth)), Box::new(self.body(bind_depth + 1))),
             7 => BodyExpr::Memo { m: self.r.below(4), k: self.val() },
             8 => BodyExpr::LocalMemo { k: self.val() },
-            9 => BodyExpr::Ref(Box::new(self.body_expr(depth + 1, bind_depth)), self.r.below(2) as u8),
+            9 => BodyExpr::Ref(Box::new(self.body_expr(depth + 1, bind_depth)), self.r.below(3) as u8),
             _ => BodyExpr::WithOld(Box::new(self.body_expr(depth + 1, bind_depth)), self.f1()),
         }
     }
@@ -278,6 +279,15 @@ impl<'a> G<'a> {
         }
     }
     fn build(&mut self) -> Action {
+        if self.pending_idref > 0 {
+            self.pending_idref -= 1;
+            self.ni += 1;
+            return if self.pending_idref == 1 {
+                Action::NewMapRef { src: usize::MAX, proj: 2 }
+            } else {
+                Action::NewMap { src: usize::MAX, f: self.f1(), fx: vec![], via: 0 }
+            };
+        }
         // continue a chain zip -> map_ref -> map_ref -> map, each over the node just created
         if self.pending_chain > 0 {
             self.pending_chain -= 1;
@@ -358,10 +368,16 @@ impl<'a> G<'a> {
             }
             9 => {
                 self.ni += 1;
-                Action::NewMapRef { src: self.idx(), proj: self.r.below(2) as u8 }
+                // a projection of a pair node, or (proj 2) the identity view of a scalar node
+                let proj = if self.r.chance(1, 3) { 2 } else { self.r.below(2) as u8 };
+                Action::NewMapRef { src: self.idx(), proj }
             }
             10 => {
                 self.ni += 1;
+                // sometimes continued by a view of it and a consumer of the view
+                if self.r.chance(1, 3) {
+                    self.pending_idref = 2;
+                }
                 Action::NewMapWithOld { src: self.idx(), f: self.f1() }
             }
             12 => {
@@ -513,7 +529,7 @@ pub fn gen_plan(seed: u64, p: &Profile) -> Plan {
     let big = plan_rng.chance(p.big_pct, 100);
     let n_actions = if big { plan_rng.range(60, 150) as usize } else { plan_rng.range(p.actions.0 as i64, p.actions.1 as i64) as usize };
     let max_nodes = if big { 48 } else { 24 };
-    let mut g = G { r: plan_rng, p: &p, ni: 0, np: 0, nq: 0, pending_chain: 0, chain_stage: 0, nvars: 0, nobs: 0, nsubs: 0, nmemo: 0, fault_free };
+    let mut g = G { r: plan_rng, p: &p, ni: 0, np: 0, nq: 0, pending_chain: 0, chain_stage: 0, pending_idref: 0, nvars: 0, nobs: 0, nsubs: 0, nmemo: 0, fault_free };
     let mut actions = vec![];
     // setup
     let nv = 1 + g.r.below(3);
